@@ -160,6 +160,18 @@ var c05 = gen.Register(&gen.Check[caseC05]{
 				return gen.Fail("Equal/mutates", "a comparison changed an operand")
 			}
 		}
+		// a nil argument (Equal dereferences it on the unchanged tree): whatever a nil-tolerant Equal takes nil to mean - nothing, or
+		// the neutral element as in Add and Multiply - it cannot be equal to an element that is not the identity
+		if !a.Model.Inf {
+			var res int
+			func() {
+				defer func() { _ = recover() }()
+				res = a.E.Equal(nil)
+			}()
+			if res == 1 {
+				return gen.Fail("Equal/nil-equals-non-identity", "Equal(%s, nil) = 1", a.Model)
+			}
+		}
 		// the operands are looked at (encoded, printed, marshalled) and compared again: same answers
 		for _, x := range []*pt.Built{a, b} {
 			if _, err := pt.ApplyStep(x.E, pt.Step{Op: "observe"}, x.Model); err != nil {
